@@ -285,6 +285,18 @@ def run(chk):
             ncell = rng.randint(max(pdeg + 1, 4) if per else 1, 9)
             step = rng.choice([1, 1, 2, 3])
             todo.append(H.Sp(pdeg, per, 'cu' if pdeg == 3 and k % 2 == 0 else 'uniform', np.arange(a0, a0 + step * ncell + 1, step), int_knots=True))
+        # pairs of DIFFERENT non-uniform spaces that agree in degree, number of cells, boundary condition and domain (two stretched
+        # velocity grids over the same interval, a refinement loop): nothing may be remembered per (degree, cells, domain)
+        for k in range(chk.n(6, 24)):
+            pdeg = [1, 2, 3, 5, 3, 4][k % 6]
+            per = k % 2 == 1
+            ncell = max(pdeg + 1, 4) + k % 3
+            a0, L0 = rng.choice([(0.0, 1.0), (-7.32, 14.64), (0.0, 10.0)])
+            for variant in range(2):
+                w_ = np.array([1.0 + (0.6 * j if variant == 0 else 0.6 * (ncell - 1 - j) + 0.3 * (j % 2)) for j in range(ncell)])
+                br_ = a0 + L0 * np.concatenate([[0.0], np.cumsum(w_)]) / w_.sum()
+                br_[-1] = a0 + L0
+                todo.append(H.Sp(pdeg, per, 'random', br_))
         # strongly graded clamped spaces (one very short cell, high degree on few cells): some weights are NEGATIVE there
         for k in range(chk.n(10, 60)):
             pdeg = rng.choice([3, 3, 4, 5])
